@@ -722,11 +722,12 @@ where
                             member.id() == &member_id && member.incarnation() == incarnation
                         })
                     {
+                        let went_down = summary.apply_successful;
                         self.handle_apply_summary(summary, as_down, true, &mut runtime)?;
                         // Member went down we might need to adjust our internal state
                         self.adjust_connection_state(&mut runtime);
 
-                        if self.config.notify_down_members {
+                        if went_down && self.config.notify_down_members {
                             // As a courtesy, we send a lightweight message to the member
                             // we're declaring down so that if it manages to receive it,
                             // it can react accordingly
